@@ -76,6 +76,7 @@ class Contract:
     def requires(self, c): return []
     def ensures(self, c): return []
     def invariants(self): return {}
+    def skolem_for(self, cfgname): return self.skolem_instances
     def spec_instances(self, c, idx): return []          # definitional axioms of the spec functions at index idx
     def extra_axioms(self, c): return []
     def axioms(self, alg): return ()                    # quantified background axioms handed to every obligation of this function
@@ -162,18 +163,23 @@ def setup(contract, cfgname, D, registry, repo):
     return ex, mk, fn, sha, names, pre
 
 
+cfgname_holder = [None]
+
+
 def wrap_inv(contract, mk, f, k):
     def inv(ex, idx, goal=False):
         c = mk(goal); parts = f(c, idx)
-        if goal and contract.skolem_instances:
+        if goal and contract.skolem_for(cfgname_holder[0]):
             for (j, lo, hi) in c.skolems:
                 ex.st.assume += list(contract.spec_instances(c, j))
+                for (cc, sub) in ex.st.callee_log[-4:]: ex.st.assume += list(cc.spec_instances(sub, j))
         return z3.And(*parts) if parts else z3.BoolVal(True)
     return inv
 
 
 def generate(contract, cfgname, registry, repo, D=None):
     """symbolically execute the real function under the contract; returns (State, list of Obligation, sha)"""
+    cfgname_holder[0] = cfgname
     ex, mk, fn, sha, names, pre = setup(contract, cfgname, D, registry, repo)
     st = ex.st; present = mk().present
     invs = contract.invariants()
@@ -196,8 +202,10 @@ def generate(contract, cfgname, registry, repo, D=None):
     # postconditions
     cg = mk(True); cg.ret = retval
     posts = contract.ensures(cg)
-    if contract.skolem_instances:
-        for (j, lo, hi) in cg.skolems: st.assume += list(contract.spec_instances(cg, j))
+    if contract.skolem_for(cfgname):
+        for (j, lo, hi) in cg.skolems:
+            st.assume += list(contract.spec_instances(cg, j))
+            for (cc, sub) in st.callee_log[-4:]: st.assume += list(cc.spec_instances(sub, j))
     for label, f in posts: st.add_oblig('post: ' + label, f, 'post')
     for a in contract._frame_params(cfgname):
         cur = st.heap[names[a]][0]
@@ -318,6 +326,7 @@ class Callee:
             if a not in pnames and a in con.modifies:
                 nb = st.new_base(ex.D, name='ret_' + con.qual.split('.')[-1]); pnames[a] = nb; fresh_made[a] = nb
         sub2 = _SubCtx(ex, pre, pnames, bound, con)
+        st.callee_log.append((con, sub2))                 # so that goals can instantiate the callee's spec definitions at their skolems
         st.assume += list(con.extra_axioms(sub2))
         for label, f in con.ensures(sub2): st.assume.append(f)
         sub2.assumed = True
